@@ -156,6 +156,11 @@ def execute(ctx, case):
     if case["_seed"] % 4 == 0 and int(np.prod(Y)) > 1:
         big[(slice(None),) + np.unravel_index(int(np.prod(Y)) - 1, Y)] = np.nan  # a component without any replicate: limits must be NaN
     that_y = (that + np.arange(int(np.prod(Y)), dtype=float)).reshape(Y)
+    lay = case["_seed"] % 3  # memory layout of the replicate array must not matter
+    if lay == 1:
+        big = np.asfortranarray(big)
+    elif lay == 2:
+        big, that_y = np.asfortranarray(big), np.asfortranarray(that_y)
     for method in METHODS:
         full = bootstrap_ci(big, that_y, alpha, method=method)
         j = int(rs.integers(0, int(np.prod(Y))))
